@@ -31,7 +31,8 @@ DInit(syncCap, asyncCap, max) ==
   [acc |-> [m \in Modes |-> <<>>],      \* accepted, deliverable: <<per, n>>
    last |-> [m \in Modes |-> 0],        \* index in acc[m] of the last delivery of mode m
    ndlv |-> 0,
-   accTiny |-> 0, dlvTiny |-> 0,        \* notifications too short to carry an identity: counted only
+   accTiny |-> 0, dlvTiny |-> 0,        \* notifications too short to carry an identity (length 0 or 1): they stand in
+   dlvA |-> [l \in {0, 1} |-> 0],       \* acc[m] as anonymous tokens <<per, 0, len>>; deliveries are counted per length
    inPer |-> 0,                         \* synchronous notifications accepted in the sender's current period
    per |-> 0, sopen |-> FALSE,          \* sender's current period
    asyncErr |-> FALSE,                  \* an asynchronous send failed in the current period
@@ -49,7 +50,7 @@ PSend(D, m, per, n, len, r, w, idn) ==
   LET D1 == IF m = "s" /\ w > 10000 THEN Fail(D, "synchronous send blocked") ELSE D IN
   IF r = "ok" THEN
        IF len > D.max THEN [D1 EXCEPT !.inPer = IF m = "s" THEN @ + 1 ELSE @]   \* accepted into the channel, must never arrive
-       ELSE IF ~idn THEN [D1 EXCEPT !.accTiny = @ + 1, !.inPer = IF m = "s" THEN @ + 1 ELSE @]
+       ELSE IF ~idn THEN [D1 EXCEPT !.accTiny = @ + 1, !.inPer = IF m = "s" THEN @ + 1 ELSE @, !.acc[m] = Append(@, <<per, 0, len>>)]
        ELSE [D1 EXCEPT !.acc[m] = Append(@, <<per, n>>), !.inPer = IF m = "s" THEN @ + 1 ELSE @]
   ELSE IF r = "clogged" THEN
        IF m # "s" THEN Fail(D1, "asynchronous send reported a clogged channel")
@@ -65,23 +66,31 @@ FindAfter(s, x, k) == IF \E i \in (k + 1)..Len(s) : s[i] = x THEN CHOOSE i \in (
 PDeliver(D, m, per, n, len, intact, idn) ==
   IF len > D.max THEN Fail(D, "notification larger than the maximum delivered")
   ELSE IF ~idn THEN
-       IF D.dlvTiny + 1 > D.accTiny THEN Fail(D, "delivered a notification that was never accepted") ELSE [D EXCEPT !.dlvTiny = @ + 1, !.ndlv = @ + 1]
+       IF D.dlvTiny + 1 > D.accTiny \/ len > 1 THEN Fail(D, "delivered a notification that was never accepted")
+       ELSE [D EXCEPT !.dlvTiny = @ + 1, !.ndlv = @ + 1, !.dlvA[len] = @ + 1]
   ELSE IF ~intact THEN Fail(D, "delivered a corrupted notification")
   ELSE LET i == FindAfter(D.acc[m], <<per, n>>, D.last[m]) IN
        IF i = 0 THEN
             IF \E j \in 1..D.last[m] : D.acc[m][j] = <<per, n>>
               THEN (IF D.acc[m][D.last[m]] = <<per, n>> THEN Fail(D, "notification delivered twice") ELSE Fail(D, "notifications delivered out of order"))
               ELSE Fail(D, "delivered a notification that was never accepted")
-       ELSE IF \E j \in (D.last[m] + 1)..(i - 1) : D.acc[m][j][1] = per
+       ELSE IF \E j \in (D.last[m] + 1)..(i - 1) : D.acc[m][j][1] = per /\ D.acc[m][j][2] # 0
               THEN Fail([D EXCEPT !.last[m] = i], "notification skipped within an open period")
+       \* anonymous (empty / one-byte) notifications accepted earlier in this mode and period must have been delivered
+       \* before: deliveries of one mode are in order, so at least that many of that length were handed over so far
+       ELSE IF \E l \in {0, 1} : Cardinality({j \in 1..(i - 1) : D.acc[m][j] = <<per, 0, l>>}) > D.dlvA[l]
+              THEN Fail([D EXCEPT !.last[m] = i], "empty notification skipped within an open period")
        ELSE [D EXCEPT !.last[m] = i, !.ndlv = @ + 1]
 
 \* end of the run; bothOpen = the stream of the sender's current period is still open on both
 \* sides, the receiver drained its handle, and timing assumptions held
 PEnd(D, bothOpen) ==
   IF ~bothOpen THEN D
-  ELSE IF \E m \in Modes : \E j \in (D.last[m] + 1)..Len(D.acc[m]) : D.acc[m][j][1] = D.per
+  ELSE IF \E m \in Modes : \E j \in (D.last[m] + 1)..Len(D.acc[m]) : D.acc[m][j][1] = D.per /\ D.acc[m][j][2] # 0
          THEN Fail(D, "accepted notification lost although the stream stayed open")
+  ELSE IF \E l \in {0, 1} : Cardinality({<<m, j>> \in Modes \X (1..(Len(D.acc["s"]) + Len(D.acc["a"]))) :
+                                            j <= Len(D.acc[m]) /\ D.acc[m][j] = <<D.per, 0, l>>}) > D.dlvA[l]
+         THEN Fail(D, "accepted empty notification lost although the stream stayed open")
   ELSE IF D.asyncErr THEN Fail(D, "asynchronous send failed although the stream stayed open")
   ELSE D
 =============================================================================
